@@ -11,10 +11,16 @@ C06 — Joint density factorises hierarchically; cdf and marginals are its integ
 Clause → theorem
   pdf = product of (conditional) densities at the declared conditioning value   jointPdf_eq_prod
   non-negative                                                                  jointPdf_nonneg
-  integrates to one (finite supports: hierarchical product of stochastic kernels) mass_one_discrete
+  integrates to one (finite supports), for `jointPdfRow` = what the driver runs    jointPdf_sums_to_one, jointPdfRow_snoc
+      the same for the abstract product of prefix-dependent kernels `totalMass`     mass_one_discrete
+      (a definition of this file: a MATHEMATICAL OBJECT ONLY, not run by the driver)
   nquad's j-th argument lands in the model position it is meant for               reorder_places_label,
       (cdf, marginal_pdf, marginal_cdf orders)                                    marginalOrder_perm, identity_order
-  marginal_cdf integrates the requested variable over (0, x), the others (0, ∞)  marginal_cdf_range_placement
+  marginal_cdf integrates the requested variable over (0, x), the others (0, ∞)  marginal_cdf_range_placement,
+                                                                                 marginal_cdf_other_ranges_full
+  cdf integrates variable i over (0, x_i); marginal_pdf every other one (0, ∞)    cdf_range_placement,
+      (the three range lists are run by the driver op `ranges` and compared with    marginal_pdf_ranges_full
+       the ranges the real code hands to nquad)
   integrates to one (real densities on (0,∞)): a hierarchical product of kernels   mass_one_iterated
       that each integrate to one has iterated integral one. This is a statement about `totalMassR` (a definition in
       this file: the iterated Lebesgue integral of a product of kernels), NOT about a model that the driver runs:
@@ -24,8 +30,12 @@ Clause → theorem
       What is proven about that iterated integral, for 2-D, real-valued factors:
         it equals the integral of the product density over the box (0,a]×(0,b]     cdf_iterated_eq_orthant_integral
             (Fubini, for a density integrable on the box)
-        structure only (`integral_const_mul`, no more): the marginal factor can be   cdf_iterated_factor,
-            pulled out of the inner integral, i.e. ∫ f₀(t) · (conditional cdf mass)    marginal_cdf_iterated_factor
+        structure only (`integral_const_mul`, no more): the marginal factor can be   cdf_iterated_factor_trivial,
+            pulled out of the inner integral, i.e. ∫ f₀(t) · (conditional cdf mass)    marginal_cdf_iterated_factor_trivial
+        the integrand f₀(t)·f₁(t,s) of these 2-D statements IS the executed model's   jointPdf_two_dim,
+            joint density `jointPdfRow c f 1 [t, s]` (c 0 = none, c 1 = some 0)        cdf_iterated_eq_orthant_integral_model,
+                                                                                     marginal_cdf_eq_integral_marginal_pdf_model,
+                                                                                     cdf_iterated_nonneg_model
         it is non-negative                                                           cdf_iterated_nonneg
       The clause stays PARTIAL: nquad's numerical value is runtime behaviour (value oracles against closed-form /
       independent quadrature references in the harness), and the n-dimensional case is not stated in Lean.
@@ -141,6 +151,123 @@ theorem mass_one_discrete (supp : List α) (w : List α → α → α)
       rw [ih, mul_one]
     rw [this, hnorm]
 
+/-- the density value is the product of the factor list -/
+theorem jointPdfRow_eq_prod (c : Nat → Option Nat) (f : Nat → Option α → α → α) (row fs : List α)
+    (h : ros c f row = some fs) : jointPdfRow c f 1 row = some fs.prod := by
+  unfold jointPdfRow
+  rw [h]
+  cases fs with
+  | nil => simp
+  | cons x xs => simp [foldl_mul_eq_prod]
+
+/-- extending a row by one value multiplies the joint density by that value's conditional density
+(hierarchical structure: the new variable is conditioned on an earlier one, the earlier factors do
+not see the new value) -/
+theorem jointPdfRow_snoc (c : Nat → Option Nat) (f : Nat → Option α → α → α) (row : List α)
+    (hier : Hier c (row.length + 1)) :
+    ∃ g v, readCond row (c row.length) = some g ∧ jointPdfRow c f 1 row = some v ∧
+      ∀ x, jointPdfRow c f 1 (row ++ [x]) = some (v * f row.length g x) := by
+  have hier' : Hier c row.length := fun i j hi hc => hier i j (by omega) hc
+  obtain ⟨fs, hfs⟩ := ros_defined c f row hier'
+  obtain ⟨hlen, hcomp⟩ := (ros_eq_some_iff c f row fs).mp hfs
+  -- conditioning value of the new variable
+  have hg : ∃ g, readCond row (c row.length) = some g := by
+    cases hc : c row.length with
+    | none => exact ⟨none, rfl⟩
+    | some j =>
+      have hj := hier row.length j (by omega) hc
+      exact ⟨some row[j], by simp [readCond, hj]⟩
+  obtain ⟨g, hg⟩ := hg
+  refine ⟨g, fs.prod, hg, jointPdfRow_eq_prod c f row fs hfs, ?_⟩
+  intro x
+  have hext : ros c f (row ++ [x]) = some (fs ++ [f row.length g x]) := by
+    rw [ros_eq_some_iff]
+    refine ⟨by simp [hlen], ?_⟩
+    intro i hi
+    have hi' : i < row.length + 1 := by simpa using hi
+    by_cases hlt : i < row.length
+    · have h1 := hcomp i hlt
+      rw [List.getElem?_append_left (by omega), ← h1]
+      obtain ⟨gi, hgi, _⟩ := rosAt_some_of_hier c f row hier' i hlt
+      unfold rosAt
+      rw [readCond_append row [x] (c i) gi hgi, hgi, List.getElem?_append_left hlt]
+    · have hi2 : i = row.length := by omega
+      subst hi2
+      unfold rosAt
+      rw [readCond_append row [x] (c row.length) g hg]
+      simp [hlen]
+  rw [jointPdfRow_eq_prod c f _ _ hext]
+  simp
+
+/-- all rows of length `n` over the finite support `supp` -/
+def allRows (supp : List α) : Nat → List (List α)
+  | 0 => [[]]
+  | n + 1 => (allRows supp n).flatMap fun row => supp.map fun x => row ++ [x]
+
+omit [Field α] in
+theorem allRows_length (supp : List α) (n : Nat) : ∀ row ∈ allRows supp n, row.length = n := by
+  induction n with
+  | zero => intro row h; simp [allRows] at h; simp [h]
+  | succ n ih =>
+    intro row h
+    simp only [allRows, List.mem_flatMap, List.mem_map] at h
+    obtain ⟨r, hr, x, _, rfl⟩ := h
+    simp [ih r hr]
+
+theorem sum_flatMap_eq {β : Type} (l : List β) (F : β → List α) :
+    (l.flatMap F).sum = (l.map fun b => (F b).sum).sum := by
+  induction l with
+  | nil => rfl
+  | cons b bs ih => simp [List.flatMap_cons, List.sum_append, ih]
+
+theorem sum_map_mul_left' {β : Type} (a : α) (l : List β) (h : β → α) :
+    (l.map fun x => a * h x).sum = a * (l.map h).sum := by
+  induction l with
+  | nil => simp
+  | cons b bs ih => simp [ih, mul_add]
+
+/-- **integrates to one, for the density the driver runs** (finite supports): if every (conditional)
+density `f i g ·` sums to one over the support for every conditioning value, the joint density
+`jointPdfRow` of a hierarchical model sums to one over all rows of the support — and is defined
+(`some`) on every one of them, so the `getD 0` in the sum is never taken. -/
+theorem jointPdf_sums_to_one (supp : List α) (c : Nat → Option Nat) (f : Nat → Option α → α → α)
+    (n : Nat) (hier : Hier c n) (hnorm : ∀ i g, (supp.map (f i g)).sum = 1) :
+    (∀ row ∈ allRows supp n, (jointPdfRow c f 1 row).isSome = true) ∧
+      ((allRows supp n).map fun row => (jointPdfRow c f 1 row).getD 0).sum = 1 := by
+  constructor
+  · intro row hrow
+    obtain ⟨v, hv⟩ := ros_defined c f row (by rw [allRows_length supp n row hrow]; exact hier)
+    rw [jointPdfRow_eq_prod c f row v hv]; rfl
+  · induction n with
+    | zero => simp [allRows, jointPdfRow, ros, optMapM]
+    | succ n ih =>
+      have ih := ih (fun i j hi hc => hier i j (by omega) hc)
+      rw [allRows, List.map_flatMap, sum_flatMap_eq]
+      refine Eq.trans ?_ ih
+      congr 1
+      apply List.map_congr_left
+      intro row hrow
+      have hl := allRows_length supp n row hrow
+      obtain ⟨g, v, _, hv, hext⟩ := jointPdfRow_snoc c f row (by rw [hl]; exact hier)
+      rw [List.map_map]
+      have : ((fun row => (jointPdfRow c f 1 row).getD 0) ∘ fun x => row ++ [x]) =
+          fun x => v * f row.length g x := by
+        funext x
+        simp [hext x]
+      rw [this, sum_map_mul_left', hnorm, hv]
+      simp
+
+
+/-- the hypotheses are satisfiable: two equally likely values per variable, second variable
+conditional on the first -/
+example : Hier (fun i => if i = 0 then none else some 0) 2 ∧
+    ∀ (i : Nat) (g : Option ℚ), (([0, 1] : List ℚ).map ((fun _ _ _ => (1 / 2 : ℚ)) i g)).sum = 1 := by
+  refine ⟨?_, fun i g => by norm_num⟩
+  intro i j hi hc
+  rcases i with _ | i
+  · simp at hc
+  · simp at hc; omega
+
 end mass
 
 /-! ### argument placement for nquad -/
@@ -228,6 +355,29 @@ theorem marginal_cdf_range_placement {β : Type} (n dim : Nat) (hd : dim < n) (x
   rw [this]
   simp [marginalCdfRanges]
 
+/-- … and every other nquad argument of `marginal_cdf` is integrated over `(0, ∞)` -/
+theorem marginal_cdf_other_ranges_full {β : Type} (n : Nat) (x : β) (j : Nat) (hj : j + 1 < n) :
+    (marginalCdfRanges n x)[j]? = some none := by
+  unfold marginalCdfRanges
+  rw [List.getElem?_append_left (by rw [List.length_replicate]; omega), List.getElem?_replicate,
+    if_pos (by omega)]
+
+/-- **cdf integrates variable `i` over `(0, x_i)`**: `cdf` uses the identity order, so the `i`-th range
+`(0, x_i)` is the range of model position `i` -/
+theorem cdf_range_placement {β : Type} (x : List β) :
+    reorderArgs (List.range (cdfRanges x).length) (cdfRanges x) = x.map fun v => some (some v) := by
+  rw [identity_order]
+  simp [cdfRanges]
+
+/-- `marginal_pdf` integrates each of the `n - 1` other variables over `(0, ∞)` -/
+theorem marginal_pdf_ranges_full {β : Type} (n : Nat) :
+    (marginalPdfRanges n : List (Range β)).length = n - 1 ∧
+      ∀ r ∈ (marginalPdfRanges n : List (Range β)), r = none := by
+  constructor
+  · simp [marginalPdfRanges]
+  · intro r hr
+    exact (List.mem_replicate.mp hr).2
+
 /-! ### the integrals themselves (real densities; `scipy.integrate.nquad` computes iterated integrals,
 first argument innermost, over the ranges `(0, x)` / `(0, ∞)` modelled above) -/
 section analytic
@@ -257,13 +407,13 @@ example : ∀ pre : List ℝ, ∫ x in Ioi (0 : ℝ), (fun (_ : List ℝ) x => R
 `(0,a] × (0,b]`): the inner level is the conditional cdf mass `∫₀ᵇ f₁(s | t) ds`, weighted by the marginal density.
 (This is `integral_const_mul` and nothing more; "cdf = integral of pdf over the orthant" is
 `cdf_iterated_eq_orthant_integral`.) -/
-theorem cdf_iterated_factor (f0 : ℝ → ℝ) (f1 : ℝ → ℝ → ℝ) (a b : ℝ) :
+theorem cdf_iterated_factor_trivial (f0 : ℝ → ℝ) (f1 : ℝ → ℝ → ℝ) (a b : ℝ) :
     ∫ t in Ioc 0 a, ∫ s in Ioc 0 b, f0 t * f1 t s = ∫ t in Ioc 0 a, f0 t * ∫ s in Ioc 0 b, f1 t s := by
   simp only [integral_const_mul]
 
 /-- the same structural remark for `marginal_cdf(x, dim)` of the conditional variable (the conditioning variable
 runs over `(0,∞)`); again `integral_const_mul` only. -/
-theorem marginal_cdf_iterated_factor (f0 : ℝ → ℝ) (f1 : ℝ → ℝ → ℝ) (b : ℝ) :
+theorem marginal_cdf_iterated_factor_trivial (f0 : ℝ → ℝ) (f1 : ℝ → ℝ → ℝ) (b : ℝ) :
     ∫ t in Ioi 0, ∫ s in Ioc 0 b, f0 t * f1 t s = ∫ t in Ioi 0, f0 t * ∫ s in Ioc 0 b, f1 t s := by
   simp only [integral_const_mul]
 
@@ -296,10 +446,55 @@ theorem cdf_iterated_nonneg (f0 : ℝ → ℝ) (f1 : ℝ → ℝ → ℝ) (a b :
     (h1 : ∀ t s, 0 ≤ f1 t s) : 0 ≤ ∫ t in Ioc 0 a, ∫ s in Ioc 0 b, f0 t * f1 t s :=
   integral_nonneg fun t => integral_nonneg fun s => mul_nonneg (h0 t) (h1 t s)
 
+/-- **link to the executed model**: for the 2-D hierarchical structure (variable 1 conditional on variable 0)
+the joint density `jointPdfRow` that the driver's `pdf` op runs is `f₀(t) · f₁(s | t)` with `f₀ = f 0 none`,
+`f₁ t = f 1 (some t)` — the integrand of the 2-D integral statements above. -/
+theorem jointPdf_two_dim {α : Type} [Mul α] (c : Nat → Option Nat) (f : Nat → Option α → α → α) (one : α)
+    (h0 : c 0 = none) (h1 : c 1 = some 0) (t s : α) :
+    jointPdfRow c f one [t, s] = some (f 0 none t * f 1 (some t) s) := by
+  simp [jointPdfRow, ros, optMapM, rosAt, readCond, h0, h1, List.range_succ]
+
+/-- `cdf_iterated_eq_orthant_integral` stated on the model's joint density `p t s` -/
+theorem cdf_iterated_eq_orthant_integral_model (c : Nat → Option Nat) (f : Nat → Option ℝ → ℝ → ℝ)
+    (h0 : c 0 = none) (h1 : c 1 = some 0) (p : ℝ → ℝ → ℝ)
+    (hp : ∀ t s, jointPdfRow c f 1 [t, s] = some (p t s)) (a b : ℝ)
+    (hint : IntegrableOn (fun z : ℝ × ℝ => p z.1 z.2) (Ioc 0 a ×ˢ Ioc 0 b) (volume.prod volume)) :
+    ∫ t in Ioc 0 a, ∫ s in Ioc 0 b, p t s = ∫ z in Ioc 0 a ×ˢ Ioc 0 b, p z.1 z.2 ∂(volume.prod volume) := by
+  have hp' : p = fun t s => f 0 none t * f 1 (some t) s := by
+    funext t s
+    have := hp t s
+    rw [jointPdf_two_dim c f 1 h0 h1] at this
+    exact (Option.some.inj this).symm
+  subst hp'
+  exact cdf_iterated_eq_orthant_integral (f 0 none) (fun t => f 1 (some t)) a b hint
+
+/-- `marginal_cdf_eq_integral_marginal_pdf` stated on the model's joint density -/
+theorem marginal_cdf_eq_integral_marginal_pdf_model (c : Nat → Option Nat) (f : Nat → Option ℝ → ℝ → ℝ)
+    (h0 : c 0 = none) (h1 : c 1 = some 0) (p : ℝ → ℝ → ℝ)
+    (hp : ∀ t s, jointPdfRow c f 1 [t, s] = some (p t s)) (b : ℝ)
+    (hint : Integrable (Function.uncurry p) ((volume.restrict (Ioi (0 : ℝ))).prod (volume.restrict (Ioc 0 b)))) :
+    ∫ t in Ioi 0, ∫ s in Ioc 0 b, p t s = ∫ s in Ioc 0 b, ∫ t in Ioi 0, p t s := by
+  have hp' : p = fun t s => f 0 none t * f 1 (some t) s := by
+    funext t s
+    have := hp t s
+    rw [jointPdf_two_dim c f 1 h0 h1] at this
+    exact (Option.some.inj this).symm
+  subst hp'
+  exact marginal_cdf_eq_integral_marginal_pdf (f 0 none) (fun t => f 1 (some t)) b hint
+
+/-- the 2-D joint cdf of the model's density is non-negative when the leaf densities are -/
+theorem cdf_iterated_nonneg_model (c : Nat → Option Nat) (f : Nat → Option ℝ → ℝ → ℝ)
+    (hf : ∀ i g x, 0 ≤ f i g x) (p : ℝ → ℝ → ℝ)
+    (hp : ∀ t s, jointPdfRow c f 1 [t, s] = some (p t s)) (a b : ℝ) :
+    0 ≤ ∫ t in Ioc 0 a, ∫ s in Ioc 0 b, p t s :=
+  integral_nonneg fun t => integral_nonneg fun s => jointPdf_nonneg c f hf [t, s] (p t s) (hp t s)
+
 end analytic
 
 /-! ### non-vacuity -/
 example : marginalOrder 3 1 = [2, 0, 1] := by decide
+example : marginalCdfRanges 3 (7 : Nat) = [none, none, some 7] ∧ (marginalPdfRanges 3 : List (Range Nat)) = [none, none]
+    ∧ cdfRanges [4, 5, (6 : Nat)] = [some 4, some 5, some 6] := by decide
 example : reorderArgs [2, 0, 1] [10, 20, 30] = [some 20, some 30, some 10] := by decide
 example : jointPdfRow (fun i => if i = 0 then none else some 0)
     (fun _ g x => match g with | none => x | some y => x + y) (1 : Int) [2, 3] = some 10 := by decide
